@@ -33,6 +33,8 @@ def run(ctx):
     cumulative_count_check_agrees(ctx, P)
     mpi_padding_order(ctx, P)
     raw_mpi_only_from_parsed_data(ctx, P)
+    dropped_prefix_octet_is_compared(ctx, P)
+    unprotected_checksum_by_version(ctx, P)
     stored_length_encoding(ctx, P)
     s2k_usage_tables(ctx, P)
     tag_tables(ctx, P)
@@ -908,3 +910,207 @@ def dispatch(ctx, P):
             'SymEncryptedData', 'Marker', 'LiteralData', 'Trust', 'UserId', 'PublicSubkey', 'UserAttribute', 'SymEncryptedProtectedData', 'ModDetectionCode', 'Padding', 'GnupgAeadData'}
     ctx.check(P + ':S05-5:dispatch', 'R-table', 'every assigned packet type has an explicit parsing arm in Packet::from_reader', want <= arms, function=b.path,
               missing=sorted(want - arms) or None, table=sorted(arms))
+
+
+def dropped_prefix_octet_is_compared(ctx, P):
+    """The native-point encodings (`0x40 || X`) are written with a constant first octet.  A reader of public key parameters that drops
+    the first octet of the point it was given (`&p[1..]`) keeps only the rest: unless it has compared the dropped octet with something,
+    ANY first octet is accepted and the value re-serializes with the constant - the accepted packet is not the packet that is written
+    back (and hashed for fingerprints and signatures over the key).  In every function of types::params::public that indexes a slice
+    with `1..`, a read of element `[0]` that reaches a comparison dominates that index."""
+    from rules.common import single_defs
+    n = 0
+    for p, r in sorted(ctx.f.bodies.items()):
+        if not p.startswith('types::params::public::') or '::tests::' in p:
+            continue
+        b = ctx.wrap(r)
+        defs = single_defs(b)
+        drops = []
+        for i, t in b.calls(r'ops::Index::index$'):
+            if 'RangeFrom' not in (t['f'].get('full') or '') or len(t['args']) < 2:
+                continue
+            k, v = resolve_value(b, t['args'][1], defs)
+            if k == 'rv' and v['k'] == 'agg' and v.get('v') == 'RangeFrom' and v['o'] and 'k' in v['o'][0] and v['o'][0]['k'].get('v') == 1:
+                drops.append(i)
+        if not drops:
+            continue
+        dom = b.dominators()
+        # reads of element [0]
+        firsts = []
+        for i, blk in enumerate(b.blocks):
+            if blk['c']:
+                continue
+            for s in blk['s']:
+                pl = s['r'].get('p') if s['r']['k'] in ('ref', 'copyderef') else (s['r']['o'][0] if s['r']['k'] == 'use' and s['r']['o'] and 'l' in s['r']['o'][0] else None)
+                if not pl:
+                    continue
+                for e in pl['pr']:
+                    m = re.match(r'\[_(\d+)\]$', e) if isinstance(e, str) else None
+                    if m:
+                        d = defs.get(int(m.group(1)))
+                        if d and d[1].get('r', {}).get('k') == 'use' and 'k' in d[1]['r']['o'][0] and d[1]['r']['o'][0]['k'].get('v') == 0:
+                            firsts.append((i, s['d']['l']))
+                    elif isinstance(e, str) and re.match(r'\[0 of \d+\]$|\[0\]$', e):
+                        firsts.append((i, s['d']['l']))
+        # does the value read reach a comparison?
+        compared = []
+        for i0, L in firsts:
+            T = {L}
+            hit = False
+            for _ in range(6):
+                grew = False
+                for i, blk in enumerate(b.blocks):
+                    if blk['c']:
+                        continue
+                    for s in blk['s']:
+                        ops = list(s['r'].get('o', ()))
+                        if 'p' in s['r']:
+                            ops.append(s['r']['p'])
+                        if any('l' in o and o['l'] in T for o in ops):
+                            if s['r']['k'] == 'bin' and s['r']['op'] in ('Eq', 'Ne'):
+                                hit = True
+                            if s['d']['l'] not in T:
+                                T.add(s['d']['l']); grew = True
+                    t = blk['t']
+                    if t['k'] == 'switch' and t['o'].get('l') in T:
+                        hit = True
+                    if t['k'] == 'call' and re.search(r'PartialEq::(eq|ne)$', t['f'].get('fn', '') or '') and any(a.get('l') in T for a in t['args']):
+                        hit = True
+                if not grew:
+                    break
+            if hit:
+                compared.append(i0)
+        for i in drops:
+            n += 1
+            ok = any(c in dom.get(i, ()) or c == i for c in compared)
+            ctx.check('%s:S05-17:dropped-prefix-compared:%s#%d' % (P, p, drops.index(i)), 'R-dom',
+                      '%s compares the first octet of the point before it drops it' % '::'.join(p.split('::')[-2:]),
+                      ok, function=p, site=site(b, i),
+                      missing=None if ok else 'the first octet is dropped at %s without having been compared: any prefix is accepted and the point is written back with the constant one' % site(b, i))
+    ctx.floor(P + ':S05-17:floor', 'readers of public parameters that drop the first octet of a point', n, 2)
+
+
+def edges_pruned_for_version(b, version, param_rx=r'^param:\d+$'):
+    """Edges of the body that cannot be taken when the KeyVersion the function was given equals `version`: the false / true edge of a
+    test `v == KeyVersion::X` (derived PartialEq on a parameter) and the arms of a discriminant switch on it that name other variants.
+    Conditions that are not such a test keep both edges."""
+    defs = single_defs(b)
+    removed = set()
+    for i, t in b.switches():
+        info = enum_switch_info(b, i)
+        if info and info[0].endswith('KeyVersion') and has_origin(b.switch_origins(i), param_rx):
+            for j, _ in b.succ(i):
+                vs = edge_variants(b, i, j) or []
+                if vs and version not in vs:
+                    removed.add((i, j))
+            continue
+        if t.get('ty') != 'bool' or 'l' not in t['o']:
+            continue
+        # follow `Not` and copies back to the comparison call
+        want, neg = t['o']['l'], False
+        call = None
+        for _ in range(4):
+            d = defs.get(want)
+            if d is None:
+                break
+            x = d[1]
+            if x.get('k') == 'call':
+                call = x
+                break
+            r = x['r']
+            if r['k'] == 'un' and r['op'] == 'Not' and 'l' in r['o'][0]:
+                neg = not neg
+                want = r['o'][0]['l']
+                continue
+            if r['k'] == 'use' and 'l' in r['o'][0] and not r['o'][0]['pr']:
+                want = r['o'][0]['l']
+                continue
+            break
+        if call is None:
+            continue
+        m = re.search(r'PartialEq::(eq|ne)$', call['f'].get('fn', '') or '')
+        if not m or 'KeyVersion' not in (call['f'].get('full') or '') or len(call['args']) != 2:
+            continue
+        consts, is_param = [], False
+        for a in call['args']:
+            og = b.operand_origins(a)
+            cs = [o.split('::')[-1] for o in og if o.startswith('agg:types::packet::KeyVersion::')]
+            if cs and not has_origin(og, param_rx):
+                consts += cs
+            elif has_origin(og, param_rx):
+                is_param = True
+        if not is_param or len(consts) != 1:
+            continue
+        truth = (consts[0] == version) != (m.group(1) == 'ne')
+        truth = truth != neg
+        for v, bb in t['targets']:
+            if bool(v) != truth:
+                removed.add((i, bb))
+        hit = [bb for v, bb in t['targets'] if bool(v) == truth]
+        if hit and t['else'] not in hit:
+            removed.add((i, t['else']))
+        removed -= set((i, bb) for bb in (hit or [t['else']]))
+    # `matches!(v, A | B)` goes through a bool local: the arms of the discriminant switch assign a constant to it and rejoin at a
+    # switch on that local - with the dead arms pruned, only assignments of one constant are still reachable
+    for _ in range(2):
+        live = b.reach_from([0], removed_edges=frozenset(removed))
+        for i, t in b.switches():
+            if i not in live or t.get('ty') != 'bool' or 'l' not in t['o'] or t['o']['pr']:
+                continue
+            L = t['o']['l']
+            assigns = [(x, st) for x, k, st in b.stmts(lambda st: st['d']['l'] == L and not st['d']['pr'])]
+            if not assigns or any(not (st['r']['k'] == 'use' and 'k' in st['r']['o'][0] and isinstance(st['r']['o'][0]['k'].get('v'), (bool, int))) for x, st in assigns):
+                continue
+            if any(blk['t']['k'] == 'call' and not blk['t']['d']['pr'] and blk['t']['d']['l'] == L for blk in b.blocks if not blk['c']):
+                continue
+            vals = set(bool(st['r']['o'][0]['k']['v']) for x, st in assigns if x in live)
+            if len(vals) != 1:
+                continue
+            truth = vals.pop()
+            hit = [bb for v, bb in t['targets'] if bool(v) == truth]
+            for v, bb in t['targets']:
+                if bool(v) != truth:
+                    removed.add((i, bb))
+            if hit and t['else'] not in hit:
+                removed.add((i, t['else']))
+            removed -= set((i, bb) for bb in hit)
+    return removed
+
+
+def unprotected_checksum_by_version(ctx, P):
+    """RFC 9580 5.5.3: an unprotected v3 or v4 secret key carries a two-octet checksum after the key material (v6 does not).  Version 2
+    keys have the version 3 format (RFC 4880 5.5.2) and the key parser routes both through the same code.  For which key versions the
+    checksum is read, written and counted is decided by version tests in three functions: the three must take the checksum path for
+    the same set of versions, and version 2 is in that set exactly when version 3 is - otherwise a v2 key that is accepted is written
+    back without its checksum, with a length two short of what its header says."""
+    sites = {
+        'types::params::plain_secret::PlainSecretParams::try_from_reader': lambda b: [i for i, t in b.calls(r'BufReadParsing::read_arr$|BufReadParsing::read_be_u16$')],
+        'types::params::plain_secret::PlainSecretParams::to_writer': lambda b: [i for i, t in b.calls(r'SimpleChecksum::to_writer$|WriteBytesExt::write_u16$')],
+        'types::params::plain_secret::PlainSecretParams::write_len': lambda b: sorted(set(i for i, k, s in b.stmts(
+            lambda s: s['r']['k'] == 'bin' and s['r']['op'].startswith('Add') and any('k' in o and o['k'].get('v') == 2 for o in s['r']['o'])))),
+    }
+    table = {}
+    for path, find in sites.items():
+        b = ctx.body(path)
+        if b is None:
+            ctx.missing(P + ':S05-18:anchor:' + path.split('::')[-1], path + ' not found')
+            return
+        ss = find(b)
+        if not ss:
+            ctx.missing(P + ':S05-18:anchor:' + path.split('::')[-1], 'checksum site not found in ' + path)
+            return
+        vs = []
+        for v in ('V2', 'V3', 'V4', 'V6'):
+            reach = b.reach_from([0], removed_edges=frozenset(edges_pruned_for_version(b, v)))
+            if reach & set(ss):
+                vs.append(v)
+        table[path.split('::')[-1]] = vs
+    vals = list(table.values())
+    agree = all(v == vals[0] for v in vals)
+    ctx.check(P + ':S05-18:checksum-versions-agree', 'R-sib', 'reader, writer and length query of unprotected secret key material take the checksum path for the same key versions',
+              agree and vals[0] not in ([], ['V2', 'V3', 'V4', 'V6']), table=table,
+              missing=None if agree else 'the three functions disagree on the versions that carry the checksum: %s' % table)
+    same = all(('V2' in v) == ('V3' in v) for v in vals)
+    ctx.check(P + ':S05-18:v2-as-v3', 'R-table', 'version 2 keys, which have the version 3 format and are parsed by the same code, carry the checksum exactly when version 3 keys do',
+              same, table=table, function='types::params::plain_secret::PlainSecretParams::try_from_reader',
+              missing=None if same else 'the checksum path is taken for %s: a version 2 key (accepted by the v2/v3 key parser) loses its two checksum octets - they are neither read nor checked nor written back' % vals[0])
